@@ -123,6 +123,66 @@ pub fn enum_frec(max_size: usize, f: &mut dyn FnMut(&Cfg)) {
     });
 }
 
+/// F-recx: recovery grammars built around the shapes the recovery code treats specially, which
+/// the size-bounded F-rec cannot reach: a reduction that is enabled by `!` as lookahead in a
+/// state that also has another continuation (the runtime reduces before it looks for a
+/// recovery state), `!` after a nullable nonterminal, `!` inside a list item, nested lists.
+pub fn enum_frecx(f: &mut dyn FnMut(&Cfg)) {
+    use Sym::{Err as E, N, T};
+    let ws: [Vec<Sym>; 2] = [vec![T(0)], vec![T(0), T(0)]];
+    let tails: [Vec<Sym>; 3] = [vec![], vec![T(2)], vec![T(1)]];
+    let mut emit = |alts: Vec<Vec<Vec<Sym>>>, terms: usize| {
+        let g = Cfg { nts: alts.len(), terms, alts, pubs: vec![0] };
+        if g.is_reduced() {
+            f(&g);
+        }
+    };
+    for w in &ws {
+        for y in &tails {
+            for z in &tails[..2] {
+                // N0 = N1 ! y | w b z ; N1 = w
+                let mut a0 = vec![N(1), E];
+                a0.extend(y.iter().cloned());
+                let mut a1 = w.clone();
+                a1.push(T(1));
+                a1.extend(z.iter().cloned());
+                emit(vec![vec![a0.clone(), a1.clone()], vec![w.clone()]], 3);
+                // N0 = N1 ! y | N2 z ; N1 = w ; N2 = w b
+                let mut wb = w.clone();
+                wb.push(T(1));
+                let mut a2 = vec![N(2)];
+                a2.extend(z.iter().cloned());
+                emit(vec![vec![a0.clone(), a2], vec![w.clone()], vec![wb]], 3);
+                // N0 = N1 y | N1 ! z ; N1 = w | w b
+                let mut b0 = vec![N(1)];
+                b0.extend(y.iter().cloned());
+                let mut b1 = vec![N(1), E];
+                b1.extend(z.iter().cloned());
+                let mut wb2 = w.clone();
+                wb2.push(T(1));
+                emit(vec![vec![b0, b1], vec![w.clone(), wb2]], 3);
+            }
+        }
+    }
+    // lists of items with an error item: N0 = N0 N1 | eps ; N1 = a | a b | ! | (c N0 c)
+    for nested in [false, true] {
+        for sep in [false, true] {
+            let mut items = vec![vec![T(0)], vec![T(0), T(1)], vec![E]];
+            if nested {
+                items.push(vec![T(2), N(0), T(2)]);
+            }
+            let rec = if sep { vec![N(0), N(1), T(2)] } else { vec![N(0), N(1)] };
+            if nested && sep {
+                continue;
+            }
+            emit(vec![vec![rec, vec![]], items], 3);
+        }
+    }
+    // `!` after a nullable nonterminal and before a terminal; nullable list before `!`
+    emit(vec![vec![vec![T(0), N(1), E, T(2)], vec![T(0), N(1), T(1), T(2)]], vec![vec![], vec![N(1), T(1)]]], 3);
+    emit(vec![vec![vec![N(1), E], vec![N(1), T(2)]], vec![vec![], vec![T(0)], vec![T(0), T(1)]]], 3);
+}
+
 struct Bounds {
     s_cfg: usize,
     s_rec: usize,
@@ -161,9 +221,11 @@ fn families(prop: Prop, b: &Bounds, thorough: bool, f: &mut dyn FnMut(&str, &Cfg
                 f("fctx", g);
             }
         });
+        gram::enum_fopt(&mut |g| f("fopt", g));
     }
     if matches!(prop, Prop::C05 | Prop::C08 | Prop::C16) {
         enum_frec(b.s_rec, &mut |g| f("frec", g));
+        enum_frecx(&mut |g| f("frecx", g));
     }
 }
 
@@ -266,8 +328,21 @@ impl<'a> Judge<'a> {
         }
     }
     /// `full`: validity/completeness clauses apply (reduced grammar without `!`)
-    pub fn c05(&self, ctx: &mut Ctx, o: &Obs, full: bool) {
+    pub fn c05(&self, ctx: &mut Ctx, o: &Obs, _noerr: bool) {
         let Some(exp) = &o.expected else { return };
+        // consumed prefix
+        let p: Option<&[u8]> = match o.kind.as_str() {
+            "UnrecognizedToken" => o.token.as_ref().map(|tok| {
+                let k = (tok.0 - 3) / 10;
+                &self.input[..k.min(self.input.len())]
+            }),
+            "UnrecognizedEof" => Some(self.input),
+            _ => None,
+        };
+        self.c05_list(ctx, exp, p, o);
+    }
+    /// judge one expected list that was computed after consuming `p` (None: unknown)
+    pub fn c05_list(&self, ctx: &mut Ctx, exp: &[String], p: Option<&[u8]>, o: &Obs) {
         if !exp.is_empty() {
             ctx.count("nonempty_expected");
         }
@@ -290,21 +365,19 @@ impl<'a> Judge<'a> {
                 }
             }
         }
-        if !full {
-            return;
-        }
-        // consumed prefix
-        let p: &[u8] = match o.kind.as_str() {
-            "UnrecognizedToken" => {
-                let Some(tok) = &o.token else { return };
-                let k = (tok.0 - 3) / 10;
-                &self.input[..k.min(self.input.len())]
-            }
-            "UnrecognizedEof" => self.input,
-            _ => return,
-        };
+        let Some(p) = p else { return };
         if p.len() + 1 > self.lang.n {
             return;
+        }
+        // With error recovery the list is judged at the first error only: once the parser has
+        // recovered, the consumed text is no longer a prefix of a sentence and the statement
+        // gives no reference. (`!` is an ordinary terminal of the bounded-language oracle, so
+        // continuations that lead into a `!` alternative count as valid.)
+        if !self.lang.viable(self.start, lang::from_slice(p)) {
+            return;
+        }
+        if self.g.uses_error() {
+            ctx.count("recovery_lists_judged");
         }
         let valid: BTreeSet<u8> = (0..self.g.terms as u8)
             .filter(|t| {
@@ -463,6 +536,15 @@ fn c16_tree(ctx: &mut Ctx, j: &Judge, t: &Tables, tree: &TNode, lang_noerr: &Lan
     }
 }
 
+/// leftmost error node of a derivation: (token it was raised on, expected list it carries)
+fn first_error_node(t: &TNode) -> Option<(Option<(usize, usize, usize)>, Vec<String>)> {
+    match t {
+        TNode::Tok { .. } => None,
+        TNode::Error { on_token, expected, .. } => Some((*on_token, expected.clone())),
+        TNode::Nt { children, .. } => children.iter().find_map(first_error_node),
+    }
+}
+
 // ---------------------------------------------------------------------------------------
 // Impl-R batches
 
@@ -519,7 +601,7 @@ pub fn implr_batch(ctx: &mut Ctx, dir: &Path, units: &[RUnit], jobs: &[(usize, u
         }
     }
     let js: Vec<implr::Job> = jobs.iter().map(|(u, e, inp)| implr::Job { unit: *u, entry: *e, input: obs::input_string(inp) }).collect();
-    let res = implr::run(&built, &js, 10_000);
+    let res = implr::run(&built, &js, 60_000);
     let _ = std::fs::remove_dir_all(&bdir);
     Some(res.iter().map(Obs::from_json).collect())
 }
@@ -555,6 +637,9 @@ fn run(ctx: &mut Ctx, prop: Prop) {
     ctx.note("bounds", json!({"S_cfg": b.s_cfg, "S_rec": b.s_rec, "n": b.n, "n_implr": b.n_r, "grammars_total": idx}));
     let mut pending: Vec<PendingConfirm> = vec![];
     let mut conf: Vec<(Cfg, Algo)> = vec![];
+    // C05: (score, grammar, algorithm, input) whose error made the expected-token simulation
+    // (generated `__accepts`, mirrored by the table model) reduce most often / twice in one state
+    let mut stress: Vec<(u64, Cfg, Algo, Vec<u8>)> = vec![];
     let conf_stride = (mine.len() / b.conf_per_shard.max(1)).max(1);
     for (k, (fam, g)) in mine.iter().enumerate() {
         let case_idx = k as u64 * ctx.nshards as u64 + ctx.shard as u64;
@@ -591,6 +676,7 @@ fn run(ctx: &mut Ctx, prop: Prop) {
                 let tok_idx = implt::extern_tok_idx(t, g.terms.max(1));
                 let stats = implt::new_stats(true);
                 let (mut nacc, mut nrej) = (0u64, 0u64);
+                let mut best_stress: Option<(u64, Vec<u8>)> = None;
                 for inp in &inputs {
                     // inputs that extend a non-viable prefix by more than one token have the
                     // same outcome as the shorter one provided the parser stops at the
@@ -601,8 +687,17 @@ fn run(ctx: &mut Ctx, prop: Prop) {
                         continue;
                     }
                     let toks = implt::gapped(inp);
+                    stats.acc_reduces.set(0);
+                    stats.acc_repeat.set(false);
                     let r = implt::run_tokens(t, &tok_idx, &toks, &stats);
                     ctx.count("parses");
+                    if prop == Prop::C05 && !has_err && !matches!(r.outcome, Outcome::Ok(_)) {
+                        // how hard did this error work the expected-token simulation?
+                        let score = stats.acc_reduces.get() + if stats.acc_repeat.get() { 1000 } else { 0 };
+                        if score >= 2 && best_stress.as_ref().map(|(s0, _)| score > *s0).unwrap_or(true) {
+                            best_stress = Some((score, inp.clone()));
+                        }
+                    }
                     let o = Obs::from_run(&r, |n| n.sexp(t));
                     if o.is_ok() {
                         nacc += 1;
@@ -619,7 +714,20 @@ fn run(ctx: &mut Ctx, prop: Prop) {
                             }
                         }
                         Prop::C04 => j.c04(ctx, &o),
-                        Prop::C05 => j.c05(ctx, &o, !has_err),
+                        Prop::C05 => {
+                            j.c05(ctx, &o, !has_err);
+                            if let Outcome::Ok(tree) = &r.outcome {
+                                // the list handed to the recovery action at the first error
+                                if let Some((on_token, exp)) = first_error_node(tree) {
+                                    let p: &[u8] = match on_token {
+                                        Some((l, _, _)) => &inp[..((l - 3) / 10).min(inp.len())],
+                                        None => inp,
+                                    };
+                                    ctx.count("recovery_action_lists_seen");
+                                    j.c05_list(ctx, &exp, Some(p), &o);
+                                }
+                            }
+                        }
                         Prop::C08 => {
                             j.c08(ctx, &o);
                             let bound = 40 * (inp.len() as u64 + 2) * (t.nstates as u64 + 2);
@@ -652,6 +760,9 @@ fn run(ctx: &mut Ctx, prop: Prop) {
                         }
                     }
                 }
+                if let Some((score, inp)) = best_stress {
+                    stress.push((score, g.clone(), algo, inp));
+                }
                 ctx.add("accepted_inputs", nacc);
                 ctx.add("rejected_inputs", nrej);
                 if nacc > 0 && nrej > 0 {
@@ -666,7 +777,12 @@ fn run(ctx: &mut Ctx, prop: Prop) {
                 }
             }
         }
-        if k % conf_stride == (ctx.seed as usize % conf_stride) {
+        if fam == "fopt" {
+            // few and aimed at the ascent backend: always compiled, under every algorithm
+            for algo in Algo::ALL {
+                conf.push((g.clone(), algo));
+            }
+        } else if k % conf_stride == (ctx.seed as usize % conf_stride) {
             if let Some(_a) = any_ok_algo {
                 // rotate the algorithm with the seed so that repeated quick runs cover all three
                 let algo = Algo::ALL[(k / conf_stride + ctx.seed as usize) % 3];
@@ -684,23 +800,44 @@ fn run(ctx: &mut Ctx, prop: Prop) {
     // ---- conformance replay + Impl-R oracles on the sub-corpus
     ctx.begin_case(u64::MAX - 1);
     crate::fw::CASE_BUDGET_MS.store(600_000, std::sync::atomic::Ordering::SeqCst);
-    conformance(ctx, prop, &b, &dir, &conf);
+    conformance(ctx, prop, &b, &dir, &conf, &[]);
+    if prop == Prop::C05 {
+        // the generated `__accepts` exists only in compiled parsers: replay the errors that
+        // stress it most on rustc-compiled table parsers (and ascent ones), hardest first
+        stress.sort_by(|a, b| b.0.cmp(&a.0).then_with(|| a.1.cmp(&b.1)));
+        let mut picked: Vec<(Cfg, Algo)> = vec![];
+        let mut extra: Vec<Vec<Vec<u8>>> = vec![];
+        for (_, g, algo, inp) in stress.into_iter() {
+            if let Some(i) = picked.iter().position(|(g2, a2)| g2 == &g && *a2 == algo) {
+                if extra[i].len() < 4 {
+                    extra[i].push(inp);
+                }
+            } else if picked.len() < b.conf_per_shard {
+                picked.push((g, algo));
+                extra.push(vec![inp]);
+            }
+        }
+        ctx.add("stress_grammars_compiled", picked.len() as u64);
+        conformance(ctx, prop, &b, &dir, &picked, &extra);
+    }
     confirm(ctx, prop, &dir, pending);
     ctx.end_case();
 }
 
-fn conformance(ctx: &mut Ctx, prop: Prop, b: &Bounds, dir: &Path, conf: &[(Cfg, Algo)]) {
-    for chunk in conf.chunks(20) {
+/// `extra[i]` = further inputs (beyond all inputs <= n_r) for `conf[i]`
+fn conformance(ctx: &mut Ctx, prop: Prop, b: &Bounds, dir: &Path, conf: &[(Cfg, Algo)], extra: &[Vec<Vec<u8>>]) {
+    for (chunk_no, chunk) in conf.chunks(20).enumerate() {
         let mut units = vec![];
         let mut jobs = vec![];
         let mut meta = vec![]; // per job: (chunk idx, cg, entry, input)
         let mut keep = vec![];
-        for (g, algo) in chunk {
+        for (gi, (g, algo)) in chunk.iter().enumerate() {
             // the grammar must be accepted under this algo; regenerate to know
             let Some(l) = gen_lift(ctx, &dir.join(""), g, *algo) else { continue };
-            keep.push((g.clone(), *algo, l));
+            let ex: Vec<Vec<u8>> = extra.get(chunk_no * 20 + gi).cloned().unwrap_or_default();
+            keep.push((g.clone(), *algo, l, ex));
         }
-        for (ci, (g, algo, _)) in keep.iter().enumerate() {
+        for (ci, (g, algo, _, ex)) in keep.iter().enumerate() {
             let has_err = g.uses_error();
             for cg in [Codegen::Table, Codegen::Ascent] {
                 if cg == Codegen::Ascent && has_err {
@@ -709,7 +846,7 @@ fn conformance(ctx: &mut Ctx, prop: Prop, b: &Bounds, dir: &Path, conf: &[(Cfg, 
                 let ui = units.len();
                 units.push(RUnit { g: g.clone(), algo: *algo, cg });
                 for (entry, _) in g.pubs.iter().enumerate() {
-                    for inp in lang::all_inputs(g.terms.max(1), b.n_r) {
+                    for inp in lang::all_inputs(g.terms.max(1), b.n_r).into_iter().chain(ex.iter().filter(|x| x.len() > b.n_r).cloned()) {
                         jobs.push((ui, entry, inp.clone()));
                         meta.push((ci, cg, entry, inp));
                     }
@@ -722,10 +859,13 @@ fn conformance(ctx: &mut Ctx, prop: Prop, b: &Bounds, dir: &Path, conf: &[(Cfg, 
         let Some(res) = implr_batch(ctx, dir, &units, &jobs) else { continue };
         ctx.add("implr_units", units.len() as u64);
         for ((ci, cg, entry, inp), o) in meta.iter().zip(res.iter()) {
-            let (g, algo, l) = &keep[*ci];
+            let (g, algo, l, _) = &keep[*ci];
             let start = g.pubs[*entry];
             let has_err = g.uses_error();
-            let lang = Lang::new(g, b.n_r + 1);
+            let lang = Lang::new(g, b.n_r.max(inp.len()) + 1);
+            if inp.len() > b.n_r {
+                ctx.count("stress_inputs_replayed");
+            }
             ctx.count("implr_parses");
             if *cg == Codegen::Ascent {
                 ctx.count("implr_ascent_parses");
